@@ -132,7 +132,7 @@ pub fn run(ctx: &Ctx) -> i32 {
                 let kv = monotone(gen::subset(&u, mask), shape, &mut rng);
                 let g = GEOMS[(mask as usize + shape) % GEOMS.len()];
                 // shape 2 goes through a raw builder that is offered every other key a second time through add() (a no-op by the set rule)
-                let front = if shape == 2 { Front::RawMixedRepeats } else if shape % 2 == 0 { Front::MapInsert } else { Front::RawGeom(g.0, g.1) };
+                let front = if shape == 2 { Front::RawMixedRepeats } else if shape == 0 && mask % 2 == 0 { Front::MapRejectedCalls } else if shape % 2 == 0 { Front::MapInsert } else { Front::RawGeom(g.0, g.1) };
                 match guard(|| build::build(front, &kv)) {
                     Ok(Ok(bytes)) => {
                         ev.fps.insert(crate::rng::fnv_u64(mask, shape as u64));
